@@ -60,6 +60,10 @@ func (w *World) scriptHeader(fc *FnCtx) (string, error) {
 	for _, k := range keys {
 		fmt.Fprintf(&sb, "(declare-const %s!0 %s)\n", k, w.heapSorts[k])
 	}
+	for _, n := range w.pureOrder {
+		sb.WriteString(w.pureDecls[n])
+		sb.WriteString("\n")
+	}
 	sb.WriteString(w.lits.Defs())
 	sb.WriteString(spec)
 	for _, d := range fc.decls {
